@@ -3,7 +3,7 @@ checks) returning partial results; `witness`: callable(violation, tier) -> witne
 import json
 import os
 
-from . import engine
+from . import engine, kani
 
 
 def _replay(args, timeout=600):
@@ -19,6 +19,106 @@ def witness_u3(v, tier):
                 'replay_args': ['u3', 'replay', json.dumps(w)],
                 'replay_cmd': 'bin/check C15 --replay <this file>'}
     return {'found': False, 'tried': (out or {}).get('tried'), 'note': err}
+
+
+def witness_u2(v, tier):
+    out, err = _replay(['u2', 'find'])
+    if out and out.get('found'):
+        w = out['witness']
+        return {'found': True, 'witness': w, 'real': out['real'], 'tried': out['tried'],
+                'replay_args': ['u2', 'replay', json.dumps(w)]}
+    return {'found': False, 'tried': (out or {}).get('tried'), 'note': err}
+
+
+def control_names():
+    """Alternatives of `control_name` in /repo/cddl.pest, in grammar order (re-extracted every run)."""
+    import re
+    g = open(os.path.join(engine.REPO, 'cddl.pest')).read()
+    m = re.search(r'^control_name\s*=\s*\{(.*?)\}', g, re.S | re.M)
+    if not m:
+        raise engine.Undecided('anchor-lost', 'control_name rule not found in cddl.pest')
+    body = m.group(1)
+    names = re.findall(r'"([^"]+)"', body)
+    rest = re.sub(r'"[^"]+"', '', body)
+    if re.sub(r'[\s|]', '', rest):
+        raise engine.Undecided('unsupported', 'control_name is no longer a plain list of literals: %r' % rest.strip())
+    if not names:
+        raise engine.Undecided('anchor-lost', 'control_name has no alternatives')
+    os.makedirs(os.path.join(engine.CACHE, 'gen'), exist_ok=True)
+    with open(os.path.join(engine.CACHE, 'gen', 'control_names.rs'), 'w') as f:
+        f.write('pub const CONTROL_NAMES: &[&str] = &[%s];\n' % ', '.join('".%s"' % n for n in names))
+    return names
+
+
+def witness_u10(v, tier):
+    names = control_names()
+    out, err = _replay(['u10', 'find'] + names)
+    if out and out.get('found'):
+        w = out['witness']
+        return {'found': True, 'witness': w, 'real': out['real'], 'tried': out['tried'],
+                'replay_args': ['u10', 'replay', json.dumps(w)]}
+    return {'found': False, 'tried': (out or {}).get('tried'), 'note': err}
+
+
+def extra_c03_parser(prop, tier, seed):
+    """Finite, complete: every alternative of control_name is accepted by the REAL parser in operator
+    position and yields the operator the token lookup assigns.  Execution over the extracted list,
+    reported separately from the deductive obligations."""
+    names = control_names()
+    out, err = _replay(['u10', 'find'] + names)
+    if out is None:
+        raise engine.Undecided('replay-failed', err)
+    res = {'violations': [], 'notes': ['control names extracted from cddl.pest: %s' % ' '.join(names)],
+           'bounded': [{'check': 'real parser accepts `a = tstr .<name> 1` for every grammar alternative and stores '
+                                 'the operator lookup_control_from_str assigns', 'bound': 'finite list, complete',
+                        'names': len(names), 'found': out.get('found')}]}
+    if out.get('found'):
+        res['violations'].append({
+            'unit': 'U10', 'label': 'control_name:every-alternative-reachable-and-mapped', 'fn': 'cddl.pest control_name',
+            'message': 'a control name listed by the grammar is not accepted by the parser, or maps to another operator',
+            'clause': [], 'engine': 'replay', 'verifier_output': json.dumps(out),
+            'fixed_witness': {'found': True, 'witness': out['witness'], 'real': out.get('real'),
+                              'replay_args': ['u10', 'replay', json.dumps(out['witness'])]}})
+    return res
+
+
+def kani_c03(prop, tier, seed):
+    control_names()
+    return kani.part([
+        {'name': 'token::verif_kani::control_names_total_and_injective', 'kind': 'complete',
+         'label': 'lookup_control_from_str:total-and-injective-on-grammar-names', 'file': 'src/token.rs',
+         'functions': ['lookup_control_from_str'],
+         'clause': 'forall n in control_name(cddl.pest): lookup(".n") is Some, and distinct n give distinct operators'},
+        {'name': 'token::verif_kani::control_lookup_accepts_only_grammar_names', 'kind': 'bounded', 'bound': 'text of <= 14 ASCII bytes (longest listed name is 12)',
+         'label': 'lookup_control_from_str:accepts-only-grammar-names', 'file': 'src/token.rs',
+         'functions': ['lookup_control_from_str'],
+         'clause': 'forall s, |s| <= 14: lookup(s) is Some ==> s in control_name(cddl.pest)'},
+    ], prop)(prop, tier, seed)
+
+
+KANI_U2 = [
+    {'name': 'pest_bridge::verif_kani::u64_hex', 'kind': 'bounded', 'bound': '"0x" + <= 17 hex digits (complete in value: every u64, first overflowing length)',
+     'label': 'parse_u64_lit:equals-rfc-value:hex', 'functions': ['parse_u64_lit'], 'file': 'src/pest_bridge.rs',
+     'clause': 'grammar_uint(s) ==> parse_u64_lit(s) == spec_uint(s)', 'counted': True},
+    {'name': 'pest_bridge::verif_kani::u64_decimal_20', 'kind': 'bounded', 'bound': '<= 20 decimal digits (every u64 value and 20-digit overflow)',
+     'label': 'parse_u64_lit:equals-rfc-value:decimal', 'functions': ['parse_u64_lit'], 'file': 'src/pest_bridge.rs',
+     'clause': 'grammar_uint(s) ==> parse_u64_lit(s) == spec_uint(s)', 'counted': True},
+    {'name': 'pest_bridge::verif_kani::u64_bin_34', 'kind': 'bounded', 'bound': '"0b" + <= 32 binary digits', 'tiers': ('quick',),
+     'label': 'parse_u64_lit:equals-rfc-value:binary', 'functions': ['parse_u64_lit'], 'file': 'src/pest_bridge.rs',
+     'clause': 'grammar_uint(s) ==> parse_u64_lit(s) == spec_uint(s)'},
+    {'name': 'pest_bridge::verif_kani::u64_bin', 'kind': 'bounded', 'bound': '"0b" + <= 65 binary digits (every u64 value, first overflowing length)', 'tiers': ('thorough',),
+     'label': 'parse_u64_lit:equals-rfc-value:binary', 'functions': ['parse_u64_lit'], 'file': 'src/pest_bridge.rs',
+     'clause': 'grammar_uint(s) ==> parse_u64_lit(s) == spec_uint(s)', 'timeout': 2400},
+    {'name': 'pest_bridge::verif_kani::u64_decimal', 'kind': 'bounded', 'bound': '<= 21 decimal digits', 'tiers': ('thorough',),
+     'label': 'parse_u64_lit:equals-rfc-value:decimal', 'functions': ['parse_u64_lit'], 'file': 'src/pest_bridge.rs',
+     'clause': 'grammar_uint(s) ==> parse_u64_lit(s) == spec_uint(s)', 'timeout': 3000},
+    {'name': 'pest_bridge::verif_kani::uint_lit', 'kind': 'complete',
+     'label': 'parse_uint_lit:usize-boundary', 'functions': ['parse_uint_lit'], 'file': 'src/pest_bridge.rs',
+     'clause': 'parse_uint_lit(s) == spec_uint(s) if it fits usize else None, against the CONTRACT of parse_u64_lit (stub_verified), every magnitude 0..=u64::MAX'},
+    {'name': 'pest_bridge::verif_kani::int_lit', 'kind': 'complete',
+     'label': 'parse_int_lit:sign-and-isize-boundary', 'functions': ['parse_int_lit'], 'file': 'src/pest_bridge.rs',
+     'clause': 'parse_int_lit(["-"]s) == (-)spec_uint(s) if it fits isize else None (-2^63 accepted, -(2^63+1) rejected), against the CONTRACT of parse_u64_lit, every magnitude and sign'},
+]
 
 
 def witness_u9(v, tier):
@@ -69,6 +169,28 @@ def extra_c20(prop, tier, seed):
 
 
 PROPS = {
+    'C03': {
+        'extra': [kani_c03, extra_c03_parser],
+        'witness': witness_u10,
+        'engine': 'kx',
+        'technique': 'Kani harnesses over the control-name list extracted from cddl.pest on every run (finite, complete) + real-parser execution over the same list',
+        'level_text': 'Control-operator closure only: (1) Kani proves for the real lookup_control_from_str that every alternative of the grammar rule control_name maps to an operator and distinct names map to distinct operators (finite list, complete), and - bounded to 14-byte texts - that nothing else is accepted; (2) the real parser is executed on every listed name and must accept it with that operator (found the .cborseq shadowing defect, fixed). Language equality with the RFC ABNF and the AST-mirroring clause are not decided.',
+        'level_note': 'Trusted: Kani/CBMC, the regex-based extraction of the control_name alternatives from cddl.pest. Not covered: all other grammar rules (pest PEG vs ABNF), AST shape.',
+        'design_ref': 'DESIGN.md 4 U10',
+        'scope': 'control_name alternatives of cddl.pest vs token::lookup_control_from_str vs the real parser',
+        'assumptions': ['pest_derive compiles cddl.pest as written (ordered choice)'],
+    },
+    'C07': {
+        'extra': [kani.part(KANI_U2, 'C07')],
+        'witness': witness_u2,
+        'engine': 'kx',
+        'technique': 'Kani function contracts in place on parse_u64_lit/parse_uint_lit/parse_int_lit (proof_for_contract, callers via stub_verified), spec twin from RFC 8610 Appendix B',
+        'level_text': 'Integer literals only. parse_u64_lit is proved equal to a digit-level RFC 8610 value function (overflow => None) for every spelling up to a stated length per radix (complete in value: every u64 and the first overflowing length; bounded in spelling length, so labelled bounded). parse_uint_lit and parse_int_lit are proved against the CONTRACT of parse_u64_lit (stub_verified) for every magnitude and sign: usize/isize boundaries, -2^63 accepted, -(2^63+1) rejected - complete. Text escapes, byte strings, floats and the call sites are not decided here.',
+        'level_note': 'Trusted: Kani/CBMC/cadical; Kani executes the real core::num parsing code (not assumed). Harnesses over symbolic spellings are length-bounded (bounds in evidence) and are reported as bounded, not counted as discharged proof obligations; the two caller proofs are complete. Unverified: unescape_text, clean_prefixed_byte_string, hex/base64 decoding (data-encoding), float parsing (core), the pest call sites.',
+        'design_ref': 'DESIGN.md 4 U2',
+        'scope': 'integer literal decoders of src/pest_bridge.rs',
+        'assumptions': ['the grammar only hands uint_value / int_value shaped text to these functions (requires clause)'],
+    },
     'C20': {
         'vx': ['U9'],
         'extra': [extra_c20],
@@ -100,10 +222,8 @@ PROPS = {
 # properties whose check is not built yet (kept in MANIFEST.not_applicable until it is)
 PENDING = {
     'C02': 'check not built yet: planned as lemma over the decoder contract (unit U1)',
-    'C03': 'check not built yet: planned finite table proof for control-operator names (unit U10)',
     'C04': 'check not built yet: planned mirror lemmas for duplicated pure helpers (unit U5)',
     'C05': 'check not built yet: planned allocation/termination/panic obligations (units U1,U2,U3,U6)',
-    'C07': 'check not built yet: planned literal-decoder contracts (unit U2)',
     'C09': 'check not built yet: planned occurrence/prelude identities (unit U5)',
     'C10': 'check not built yet: planned claim-ledger/matching contracts (unit U6)',
     'C11': 'check not built yet: planned decoder proof (unit U1)',
